@@ -224,7 +224,7 @@ pub fn strategy() -> BoxedStrategy<Case> {
                     r.dir = 0;
                 }
             }
-            Case { base: c09::Case { prob, span, method, rtol, atol, analytic_jac, max_step, recipes }, t_eval, budget }
+            Case { base: c09::Case { prob, span, method, rtol, atol, analytic_jac, max_step, recipes, first_step: None }, t_eval, budget }
         })
         .boxed()
 }
